@@ -32,6 +32,10 @@ GEN_SINK(sink_genAES, 1) GEN_SINK(sink_genGeneric, 2) GEN_SINK(sink_genDES, 3) G
 #ifndef KEYLEN
 #define KEYLEN 16
 #endif
+#ifdef BIGT
+#undef vreach
+#define vreach() do { } while (0)      /* a template that long can only be refused: the success witnesses do not apply */
+#endif
 extern "C" void harness(void)
 {
 	env_init(0, 2);
@@ -75,6 +79,13 @@ extern "C" void harness(void)
 #else
 	CK_BBOOL isTok = nondet_bool() ? CK_TRUE : CK_FALSE, isPriv = nondet_bool() ? CK_TRUE : CK_FALSE;
 	CK_ULONG cnt = nondet_uchar() % 4;
+#ifdef BIGT
+	// C17: a template longer than the generator's fixed attribute array (32 entries, 4 of them taken): refused, nothing written out of range
+	static CK_ATTRIBUTE big[BIGT]; static CK_BYTE bigv; bigv = nondet_uchar();
+	for (int i = 0; i < BIGT; i++) { if (i < 3) big[i] = tmpl[i]; else { big[i].type = CKA_LABEL; big[i].pValue = &bigv; big[i].ulValueLen = 1; } }
+	#define tmpl big
+	cnt = BIGT;      // (count and entry types concrete: the loop shape stays concrete, pointer checks stay affordable)
+#endif
 #if GEN == 1
 	CK_RV rv = hsm->generateAES(hS, tmpl, cnt, &hNew, isTok, isPriv); const CK_ULONG genMech = CKM_AES_KEY_GEN, kt = CKK_AES; const size_t klen = KEYLEN; bool lenOk = cnt >= 1 && vlen == KEYLEN; vassume(cnt == 0 || vlen == KEYLEN || (vlen != 16 && vlen != 24 && vlen != 32));
 #elif GEN == 2
@@ -112,5 +123,5 @@ extern "C" void harness(void)
 		if (nCreate && createOk) { vassert(n.destroyed); vassert(env.hm->getObject(createdHandle) == NULL); vreach(); }
 	}
 #endif
-	vreach();
+	vreach_(__LINE__);
 }
